@@ -169,4 +169,70 @@ theorem miss_not_mem (ss : List Slot) (myKid theirKid : Nat)
 theorem pigeon4 : ∀ a b c d : Fin 4, [a, b, c, d].Nodup → ∀ w : Fin 4, w ∈ [a, b, c, d] := by
   decide
 
+
+/-- position of a key-id pair in the window {m, m-1} × {t, t-1} -/
+def widx (m t : Nat) (k : Nat × Nat) : Fin 4 :=
+  match decide (k.1 = m), decide (k.2 = t) with
+  | true, true => 0
+  | true, false => 1
+  | false, true => 2
+  | false, false => 3
+
+def inWin (m m' t t' : Nat) (k : Nat × Nat) : Prop := (k.1 = m ∨ k.1 = m') ∧ (k.2 = t ∨ k.2 = t')
+
+theorem widx_inj {m m' t t' : Nat} {a b : Nat × Nat} (ha : inWin m m' t t' a) (hb : inWin m m' t t' b)
+    (h : widx m t a = widx m t b) : a = b := by
+  obtain ⟨a1, a2⟩ := a
+  obtain ⟨b1, b2⟩ := b
+  simp only [inWin] at ha hb
+  unfold widx at h
+  by_cases h1 : a1 = m <;> by_cases h2 : a2 = t <;> by_cases h3 : b1 = m <;> by_cases h4 : b2 = t <;>
+    simp [h1, h2, h3, h4] at h ⊢ <;> omega
+
+/-- four pairwise distinct keys inside the window cover it -/
+theorem window_cover {m m' t t' : Nat} (k1 k2 k3 k4 req : Nat × Nat)
+    (h1 : inWin m m' t t' k1) (h2 : inWin m m' t t' k2) (h3 : inWin m m' t t' k3) (h4 : inWin m m' t t' k4)
+    (hr : inWin m m' t t' req) (hnd : [k1, k2, k3, k4].Nodup) : req ∈ [k1, k2, k3, k4] := by
+  have hnd' : [widx m t k1, widx m t k2, widx m t k3, widx m t k4].Nodup := by
+    simp only [List.nodup_cons, List.mem_cons, List.not_mem_nil, or_false, not_or, List.nodup_nil, and_true] at hnd ⊢
+    obtain ⟨⟨a, b, c⟩, ⟨d, e⟩, f⟩ := hnd
+    exact ⟨⟨fun h => a (widx_inj h1 h2 h), fun h => b (widx_inj h1 h3 h), fun h => c (widx_inj h1 h4 h)⟩,
+           ⟨fun h => d (widx_inj h2 h3 h), fun h => e (widx_inj h2 h4 h)⟩, ⟨fun h => f.1 (widx_inj h3 h4 h), fun h => h⟩⟩
+  have := pigeon4 _ _ _ _ hnd' (widx m t req)
+  simp only [List.mem_cons, List.not_mem_nil, or_false] at this ⊢
+  rcases this with h | h | h | h
+  · exact Or.inl (widx_inj hr h1 h)
+  · exact Or.inr (Or.inl (widx_inj hr h2 h))
+  · exact Or.inr (Or.inr (Or.inl (widx_inj hr h3 h)))
+  · exact Or.inr (Or.inr (Or.inr (widx_inj hr h4 h)))
+
+theorem inWindow_iff (p : Party) (s : Slot) :
+    inWindow p s = true ↔ inWin p.myKeyId (pred32 p.myKeyId) p.theirKeyId (pred32 p.theirKeyId) (keyOf s) := by
+  simp [inWindow, inWin, keyOf]
+
+/-- **pigeonhole for the slot cache.** With the invariant, a request for key ids inside the current window
+    that is not a cache hit always finds a slot to write into. -/
+theorem pickSlot_some (p : Party) (hinv : SlotInv p.slots) (myKid theirKid : Nat)
+    (hw : inWin p.myKeyId (pred32 p.myKeyId) p.theirKeyId (pred32 p.theirKeyId) (myKid, theirKid))
+    (hmiss : (myKid, theirKid) ∉ usedKeys p.slots) : p.pickSlot ≠ none := by
+  intro hnone
+  unfold Party.pickSlot at hnone
+  cases h1 : findSlot p.slots (fun s => !s.used) with
+  | some i => simp [h1] at hnone
+  | none =>
+    simp only [h1] at hnone
+    simp only [findSlot, List.findIdx?_eq_none_iff] at h1 hnone
+    obtain ⟨hlen, hnd⟩ := hinv
+    -- all four slots are used and in the window
+    match hs : p.slots, hlen with
+    | [s1, s2, s3, s4], _ =>
+      rw [hs] at h1 hnone hnd hmiss
+      have u : ∀ s ∈ [s1, s2, s3, s4], s.used = true := fun s hm => by simpa using h1 s hm
+      have w : ∀ s ∈ [s1, s2, s3, s4], inWin p.myKeyId (pred32 p.myKeyId) p.theirKeyId (pred32 p.theirKeyId) (keyOf s) :=
+        fun s hm => (inWindow_iff p s).mp (by simpa using hnone s hm)
+      have e : usedKeys [s1, s2, s3, s4] = [keyOf s1, keyOf s2, keyOf s3, keyOf s4] := by
+        simp [usedKeys, u s1 (by simp), u s2 (by simp), u s3 (by simp), u s4 (by simp)]
+      rw [e] at hnd hmiss
+      exact hmiss (window_cover _ _ _ _ _ (w s1 (by simp)) (w s2 (by simp)) (w s3 (by simp)) (w s4 (by simp)) hw hnd)
+
 end XC.C47
